@@ -213,7 +213,8 @@ func init() {
 			"views.(*ViewPort).MakeVisible", "views.(*ViewPort).Center", "views.(*ViewPort).SetSize", "views.(*ViewPort).SetContentSize",
 			"views.(*ViewPort).SetContent", "views.(*ViewPort).Fill", "views.(*ViewPort).Resize",
 			"views.(*BoxLayout).hLayout", "views.(*BoxLayout).vLayout", "views.(*BoxLayout).layout", "views.(*BoxLayout).Resize", "views.(*BoxLayout).AddWidget", "views.(*BoxLayout).InsertWidget"},
-		Custom: []func(*PropRun){c20Replays},
+		Custom: []func(*PropRun){c20Replays, c20BoxEnum},
+		Bounded: []string{"BoxLayout/enumerated-layouts-exact-distribution: the surplus distribution uses floating point behind pointer-linked cells; native exhaustive enumeration of small layouts (<= 3 children quick, <= 4 thorough; extents 0..4; fills 0/1/2; views 0..12) - not a proof"},
 		Trusted: []string{"parent View methods terminate, do not panic and do not touch the ViewPort (assumed interface contracts in spec/trusted/views.spec)",
 			"child Widget methods (Size >= 0, Resize, SetView, Watch, Unwatch, Draw) and the widget event posting terminate and do not touch the BoxLayout (assumed interface contracts)"},
 		Assume: []string{"BoxLayout (THIN): the cells are a slice of pointers to structs holding pointers, outside the verifier's heap model; non-nil cells / child views / widgets are assumed (opt assume-nonnil), the frame clauses cover BoxLayout's own fields only, and nothing is proved about the cells' pad/frac fields or the child views' final geometry",
@@ -1193,6 +1194,117 @@ func (t *c06RecTty) WindowSize() (WindowSize, error)  { return WindowSize{Width:
 			g.ReplayGo = scenario(40, "s.Suspend()", "Suspend() did not return within 2s: with 40 unpolled keys the input goroutine is blocked sending to the full key channel")
 		}
 	}
+}
+
+// c20BoxEnum: BOUNDED stand-in for the part of BoxLayout the contracts cannot reach (the shares of the surplus are
+// computed in floating point, the cells sit behind pointers): the real BoxLayout is run natively on EVERY layout of up
+// to 3 children (thorough: 4) with preferred extents 0..4, fill factors 0, 1 or 2, both orientations, in a view of
+// 0..12 cells along the axis.  Whenever the preferred extents fit, every child gets at least its preferred extent,
+// children are placed in order without gaps or overlap, and - if some child has a non-zero fill factor - the extents
+// add up to the view exactly, each child's share of the surplus differing from the exact proportional share by less
+// than one cell.  Exhaustive up to the stated bounds, not a proof.
+func c20BoxEnum(run *PropRun) {
+	maxN := 3
+	if run.Tier == "thorough" {
+		maxN = 4
+	}
+	src := replayTest("views", []string{"github.com/gdamore/tcell/v2"}, fmt.Sprintf(`
+	maxN := %d
+	n := 0
+	bad := ""
+	var rec func(prefs []int, fills []float64)
+	check := func(prefs []int, fills []float64) {
+		for _, orient := range []Orientation{Horizontal, Vertical} {
+			for view := 0; view <= 12 && bad == ""; view++ {
+				root := &c20eView{w: view, h: 3}
+				if orient == Vertical { root = &c20eView{w: 3, h: view} }
+				b := NewBoxLayout(orient)
+				b.SetView(root)
+				sum := 0
+				totf := 0.0
+				for i := range prefs {
+					w := &c20eWidget{pw: prefs[i], ph: 1}
+					if orient == Vertical { w = &c20eWidget{pw: 1, ph: prefs[i]} }
+					b.AddWidget(w, fills[i])
+					sum += prefs[i]
+					totf += fills[i]
+				}
+				b.Resize()
+				n++
+				if sum > view { continue } // not enough room: clipping is ViewPort's business
+				pos, total := 0, 0
+				for i, c := range b.cells {
+					x1, y1, x2, y2 := c.view.GetPhysical()
+					start, end := x1, x2
+					if orient == Vertical { start, end = y1, y2 }
+					ext := end - start + 1
+					if ext > 0 && start != pos { bad = fmt.Sprintf("orient %%d view %%d prefs %%v fills %%v: child %%d starts at %%d, want %%d", orient, view, prefs, fills, i, start, pos); return }
+					if ext < prefs[i] { bad = fmt.Sprintf("orient %%d view %%d prefs %%v fills %%v: child %%d gets %%d, less than its preferred %%d", orient, view, prefs, fills, i, ext, prefs[i]); return }
+					if totf > 0 {
+						exact := float64(view-sum) * fills[i] / totf
+						if d := float64(ext-prefs[i]) - exact; d <= -1 || d >= 1 { bad = fmt.Sprintf("orient %%d view %%d prefs %%v fills %%v: child %%d gets %%d extra cells, its proportional share is %%.3f", orient, view, prefs, fills, i, ext-prefs[i], exact); return }
+					}
+					if ext > 0 { pos = start + ext }
+					total += ext
+				}
+				if totf > 0 && total != view { bad = fmt.Sprintf("orient %%d view %%d prefs %%v fills %%v: extents add up to %%d, not to the view", orient, view, prefs, fills, total); return }
+				if totf == 0 && total != sum { bad = fmt.Sprintf("orient %%d view %%d prefs %%v fills %%v: without fill factors the extents add up to %%d, not to the preferred %%d", orient, view, prefs, fills, total, sum); return }
+			}
+		}
+	}
+	rec = func(prefs []int, fills []float64) {
+		if bad != "" { return }
+		if len(prefs) > 0 { check(prefs, fills) }
+		if len(prefs) == maxN { return }
+		for p := 0; p <= 4; p++ {
+			for _, f := range []float64{0, 1, 2} {
+				rec(append(append([]int(nil), prefs...), p), append(append([]float64(nil), fills...), f))
+			}
+		}
+	}
+	rec(nil, nil)
+	if bad != "" { fmt.Println("BOXENUM FAIL " + bad); fail("%%s", bad); return }
+	fmt.Printf("BOXENUM OK %%d\n", n)`, maxN)) + `
+type c20eView struct{ w, h int }
+
+func (s *c20eView) SetContent(x, y int, ch rune, comb []rune, st tcell.Style) {}
+func (s *c20eView) Size() (int, int)                                       { return s.w, s.h }
+func (s *c20eView) Resize(x, y, w, h int)                                  {}
+func (s *c20eView) Fill(rune, tcell.Style)                                 {}
+func (s *c20eView) Clear()                                                 {}
+
+type c20eWidget struct {
+	WidgetWatchers
+	pw, ph int
+	view   View
+}
+
+func (w *c20eWidget) Draw()                        {}
+func (w *c20eWidget) Resize()                      {}
+func (w *c20eWidget) HandleEvent(tcell.Event) bool { return false }
+func (w *c20eWidget) SetView(v View)               { w.view = v }
+func (w *c20eWidget) Size() (int, int)             { return w.pw, w.ph }
+`
+	out, err := runOverlayTest(run.Eng.Repo, run.Eng.Repo+"/views", src, 600*time.Second, nil)
+	ok, detail := false, ""
+	for _, ln := range strings.Split(out, "\n") {
+		if strings.HasPrefix(ln, "BOXENUM OK ") {
+			ok = true
+			detail = strings.TrimPrefix(ln, "BOXENUM OK ") + " layouts"
+		}
+		if strings.HasPrefix(ln, "BOXENUM FAIL ") && detail == "" {
+			detail = strings.TrimPrefix(ln, "BOXENUM FAIL ")
+		}
+	}
+	if !ok && detail == "" {
+		run.Errors = append(run.Errors, fmt.Sprintf("BoxLayout enumeration did not run: %v %s", err, tail(out, 400)))
+		return
+	}
+	g := run.AddObligation("views.BoxLayout/enumerated-layouts-exact-distribution", "table-bounded", BoolT(ok),
+		fmt.Sprintf("on every layout of up to %d children (preferred extents 0..4, fill factors 0/1/2, views 0..12, both orientations) that fits, the real BoxLayout gives every child at least its preferred extent, places the children in order without gaps, and distributes the surplus exactly and in proportion to the fill factors (native, exhaustive up to the bounds): %s", maxN, detail))
+	g.ReplayDir = run.Eng.Repo + "/views"
+	g.ReplayGo = src
+	run.Extra["boxlayout_enumeration_max_children_bounded"] = maxN
 }
 
 // c20Replays: demonstrations for the BoxLayout call-log clauses (inputs for them cannot be built from a model: the
